@@ -32,14 +32,8 @@ Qed.
 (* ---- strings a local context refers to ---- *)
 Definition with_prefix (s : string) : list string :=
   s :: match split_colon s with Some (p, _) => [p] | None => [] end.
-Definition opt_str (o : option json) : list string :=
-  match o with Some (JStr s) => [s] | _ => [] end.
-Definition def_strings (v : json) : list string :=
-  match v with
-  | JStr s => [s]
-  | JObj m => opt_str (jget "@id" m) ++ opt_str (jget "@type" m)
-  | _ => []
-  end.
+Definition opt_list {A} (o : option A) : list A := match o with Some x => [x] | None => [] end.
+Definition def_strings (v : json) : list string := opt_list (id_string v) ++ opt_list (type_string v).
 Definition ctx_refs (L : members) : list string :=
   flat_map (fun kv : string * json => flat_map with_prefix (def_strings (snd kv))) L.
 
@@ -74,44 +68,947 @@ Proof.
   exists (t, v). split; [exact HL|]. simpl. apply in_flat_map. exists s. auto.
 Qed.
 
+Lemma def_of_S : forall n T L t,
+  def_of (S n) T L t =
+  match jget t L with
+  | None => Err "internal:no-such-key"
+  | Some v => def_core t v (option_map (expand_in_ctx (def_of n T L) T L) (id_string v))
+                           (option_map (expand_in_ctx (def_of n T L) T L) (type_string v))
+  end.
+Proof. reflexivity. Qed.
+
 Lemma def_of_agree : forall n T1 T2 L t,
   agree_refs L T1 T2 -> def_of n T1 L t = def_of n T2 L t.
 Proof.
   induction n as [|n IH]; intros T1 T2 L t Hag; [reflexivity|].
-  simpl. destruct (jget t L) as [v|] eqn:Hget; [|reflexivity].
+  rewrite !def_of_S. destruct (jget t L) as [v|] eqn:Hget; [|reflexivity].
   pose proof (jget_in t L v Hget) as HinL.
   assert (E : forall s, In s (def_strings v) ->
               expand_in_ctx (def_of n T1 L) T1 L s = expand_in_ctx (def_of n T2 L) T2 L s).
   { intros s Hs. apply expand_agree.
     - intro x. apply IH. exact Hag.
     - intros x Hx Hm. apply Hag; [|exact Hm]. eapply in_ctx_refs; eauto. }
-  destruct v as [|b|z|s|s|l|m]; try reflexivity.
-  - (* JStr s *)
-    simpl.
-    destruct (is_keyword t); [reflexivity|].
-    destruct (keyword_like t); [reflexivity|].
-    destruct (has_colon t || has_slash t); [reflexivity|].
-    simpl.
-    destruct (String.eqb s t); [reflexivity|].
-    destruct (negb (is_keyword s) && keyword_like s); [reflexivity|].
-    rewrite (E s) by (simpl; auto). reflexivity.
-  - (* JObj m *)
-    simpl.
-    destruct (is_keyword t); [reflexivity|].
-    destruct (keyword_like t); [reflexivity|].
-    destruct (has_colon t || has_slash t); [reflexivity|].
-    destruct (negb (forallb (fun k => str_mem k valid_def_keys) (jkeys m))); [reflexivity|].
-    destruct (negb (forallb (fun k => str_mem k subset_def_keys) (jkeys m))); [reflexivity|].
-    destruct (jget "@id" m) as [[|b|z|s|idStr|l|m']|] eqn:Hid; try reflexivity.
-    destruct (String.eqb idStr t); [reflexivity|].
-    destruct (negb (is_keyword idStr) && keyword_like idStr); [reflexivity|].
-    rewrite (E idStr) by (simpl; rewrite Hid; simpl; auto).
-    destruct (expand_in_ctx (def_of n T2 L) T2 L idStr) as [id| | |]; try reflexivity.
-    simpl.
-    destruct (negb (is_keyword id || is_abs_iri id)); [reflexivity|].
-    destruct (String.eqb id "@context"); [reflexivity|].
-    destruct (jget "@type" m) as [[|b|z|s|ts|l|m']|] eqn:Hty; try reflexivity.
-    destruct (str_mem ts ["@id"; "@vocab"; "@json"; "@none"]); [reflexivity|].
-    rewrite (E ts); [reflexivity|].
-    simpl. rewrite Hid, Hty. simpl. auto.
+  f_equal.
+  - destruct (id_string v) as [s|] eqn:Hi; [|reflexivity]. cbn [option_map]. f_equal.
+    apply E. unfold def_strings. rewrite Hi. cbn [opt_list app]. left. reflexivity.
+  - destruct (type_string v) as [s|] eqn:Hi; [|reflexivity]. cbn [option_map]. f_equal.
+    apply E. unfold def_strings. rewrite Hi. apply in_or_app. right. left. reflexivity.
+Qed.
+
+(* ---- define_all / parse_obj / parse_terms preserve and extend agreement ---- *)
+Definition skip_key (k : string) : bool := str_mem k non_term_keys || String.eqb k "@propagate".
+Definition term_keys_of (ks : list string) : list string := filter (fun k => negb (skip_key k)) ks.
+
+Lemma define_all_cons : forall T L k r acc,
+  define_all T L (k :: r) acc =
+  if skip_key k then define_all T L r acc
+  else d <- def_of (S (List.length L)) T L k ;; define_all T L r (upsert String.eqb k d acc).
+Proof. reflexivity. Qed.
+
+Lemma define_all_sim : forall T1 T2 L ks (Ag : string -> Prop) A1 A2 R1 R2,
+  agree_refs L T1 T2 ->
+  simA Ag A1 A2 ->
+  define_all T1 L ks A1 = Ok R1 -> define_all T2 L ks A2 = Ok R2 ->
+  simA (fun t => Ag t \/ In t (term_keys_of ks)) R1 R2.
+Proof.
+  intros T1 T2 L ks. induction ks as [|k r IH]; intros Ag A1 A2 R1 R2 Hag Hs H1 H2.
+  - cbn in H1, H2. inversion H1; inversion H2; subst.
+    intros t [Ht|[]]. apply Hs. exact Ht.
+  - rewrite define_all_cons in H1, H2. unfold term_keys_of. cbn [filter].
+    destruct (skip_key k) eqn:Hsk; cbn [negb].
+    + exact (IH Ag A1 A2 R1 R2 Hag Hs H1 H2).
+    + rewrite (def_of_agree _ T1 T2 L k Hag) in H1.
+      destruct (def_of (S (List.length L)) T2 L k) as [d| | |]; try discriminate.
+      cbn [bind] in H1, H2.
+      assert (Hs' : simA (fun t => Ag t \/ t = k) (upsert String.eqb k d A1) (upsert String.eqb k d A2)).
+      { intros t Ht. rewrite !assoc_upsert.
+        destruct (String.eqb k t) eqn:E; [reflexivity|].
+        destruct Ht as [Ht|Ht]; [apply Hs; exact Ht|].
+        subst t. rewrite String.eqb_refl in E. discriminate. }
+      pose proof (IH _ _ _ _ _ Hag Hs' H1 H2) as Hr.
+      intros t Ht. apply Hr.
+      destruct Ht as [Ht|[Ht|Ht]]; [left; left; exact Ht | left; right; symmetry; exact Ht | right; exact Ht].
+Qed.
+
+Definition ctx_obj_of (m0 : members) : members :=
+  match jget "@context" m0 with Some (JObj m') => m' | _ => m0 end.
+Definition term_keys (L : members) : list string := term_keys_of (jkeys L).
+
+Lemma parse_obj_ok : forall T m0 R,
+  parse_obj T m0 = Ok R ->
+  define_all T (ctx_obj_of m0) (jkeys (ctx_obj_of m0)) T = Ok R.
+Proof.
+  intros T m0 R H. unfold parse_obj in H. unfold ctx_obj_of.
+  apply bind_ok in H. destruct H as [m [Hm H]].
+  assert (Em : m = match jget "@context" m0 with Some (JObj m') => m' | _ => m0 end).
+  { destruct (jget "@context" m0) as [[| | | | | |m']|]; inversion Hm; reflexivity. }
+  rewrite <- Em.
+  destruct (existsb (fun k => jmem k m) unsupported_ctx_keys); [discriminate|].
+  apply bind_ok in H. destruct H as [u1 [_ H]].
+  apply bind_ok in H. destruct H as [u2 [_ H]]. exact H.
+Qed.
+
+Lemma parse_obj_sim : forall (Ag : string -> Prop) T1 T2 m0 R1 R2,
+  simA Ag T1 T2 ->
+  (forall x, In x (ctx_refs (ctx_obj_of m0)) -> jmem x (ctx_obj_of m0) = false -> Ag x) ->
+  parse_obj T1 m0 = Ok R1 -> parse_obj T2 m0 = Ok R2 ->
+  simA (fun t => Ag t \/ In t (term_keys (ctx_obj_of m0))) R1 R2.
+Proof.
+  intros Ag T1 T2 m0 R1 R2 Hs Hcl H1 H2.
+  apply parse_obj_ok in H1. apply parse_obj_ok in H2.
+  eapply define_all_sim; [|exact Hs|exact H1|exact H2].
+  intros x Hx Hm. apply Hs. apply Hcl; assumption.
+Qed.
+
+(* the context objects Context.parse visits (through arrays and the loader) *)
+Fixpoint lc_items (n : nat) (ld : loader) (lc : json) : list members :=
+  match n with
+  | O => []
+  | S n' =>
+      flat_map (fun c =>
+        match c with
+        | JObj m => [ctx_obj_of m]
+        | JStr url =>
+            match assoc String.eqb url ld with
+            | Some (JObj dm) => match jget "@context" dm with Some inner => lc_items n' ld inner | None => [] end
+            | _ => []
+            end
+        | _ => []
+        end) (arrayify lc)
+  end.
+Definition lc_keys (n : nat) (ld : loader) (lc : json) : list string := flat_map term_keys (lc_items n ld lc).
+
+(* every context object refers only to terms it defines itself or to agreed terms *)
+Definition closed_lc (Ag : string -> Prop) (n : nat) (ld : loader) (lc : json) : Prop :=
+  forall L, In L (lc_items n ld lc) -> forall x, In x (ctx_refs L) -> jmem x L = false -> Ag x.
+
+Definition pstep (n' : nat) (ld : loader) (acc : res terms) (c : json) : res terms :=
+  r <- acc ;; parse_item (parse_terms n' ld) ld r c.
+
+Lemma parse_terms_S : forall n ld T lc,
+  parse_terms (S n) ld T lc = fold_left (pstep n ld) (arrayify lc) (Ok T).
+Proof. reflexivity. Qed.
+
+Lemma fold_pstep_not_ok : forall n ld l e R,
+  (forall a, e <> Ok a) -> fold_left (pstep n ld) l e <> Ok R.
+Proof.
+  intros n ld l. induction l as [|c l IH]; intros e R He; cbn [fold_left].
+  - apply He.
+  - apply IH. intros a. unfold pstep. destruct e; cbn [bind]; try discriminate. exfalso. eapply He; reflexivity.
+Qed.
+
+Lemma fold_pstep_cons_ok : forall n ld c l A R,
+  fold_left (pstep n ld) (c :: l) (Ok A) = Ok R ->
+  exists B, parse_item (parse_terms n ld) ld A c = Ok B /\ fold_left (pstep n ld) l (Ok B) = Ok R.
+Proof.
+  intros n ld c l A R H. cbn [fold_left] in H. unfold pstep at 2 in H. cbn [bind] in H.
+  destruct (parse_item (parse_terms n ld) ld A c) as [B| | |] eqn:E.
+  - exists B. auto.
+  - exfalso. eapply fold_pstep_not_ok; [|exact H]. intros a; discriminate.
+  - exfalso. eapply fold_pstep_not_ok; [|exact H]. intros a; discriminate.
+  - exfalso. eapply fold_pstep_not_ok; [|exact H]. intros a; discriminate.
+Qed.
+
+Definition item_objs (n' : nat) (ld : loader) (c : json) : list members :=
+  match c with
+  | JObj m => [ctx_obj_of m]
+  | JStr url =>
+      match assoc String.eqb url ld with
+      | Some (JObj dm) => match jget "@context" dm with Some inner => lc_items n' ld inner | None => [] end
+      | _ => []
+      end
+  | _ => []
+  end.
+
+Lemma lc_items_S : forall n ld lc, lc_items (S n) ld lc = flat_map (item_objs n ld) (arrayify lc).
+Proof. reflexivity. Qed.
+
+Lemma parse_terms_sim : forall n ld lc (Ag : string -> Prop) T1 T2 R1 R2,
+  simA Ag T1 T2 -> closed_lc Ag n ld lc ->
+  parse_terms n ld T1 lc = Ok R1 -> parse_terms n ld T2 lc = Ok R2 ->
+  simA (fun t => Ag t \/ In t (lc_keys n ld lc)) R1 R2.
+Proof.
+  induction n as [|n IHn]; intros ld lc Ag T1 T2 R1 R2 Hs Hcl H1 H2.
+  - cbn in H1. discriminate.
+  - rewrite parse_terms_S in H1, H2. unfold lc_keys. rewrite lc_items_S.
+    unfold closed_lc in Hcl. rewrite lc_items_S in Hcl.
+    revert Ag T1 T2 Hs Hcl H1 H2.
+    generalize (arrayify lc) as l. induction l as [|c l IHl]; intros Ag T1 T2 Hs Hcl H1 H2.
+    + cbn in H1, H2. inversion H1; inversion H2; subst. intros t [Ht|[]]. apply Hs; exact Ht.
+    + apply fold_pstep_cons_ok in H1. destruct H1 as [B1 [Hi1 H1]].
+      apply fold_pstep_cons_ok in H2. destruct H2 as [B2 [Hi2 H2]].
+      assert (Hstep : simA (fun t => Ag t \/ In t (flat_map term_keys (item_objs n ld c))) B1 B2).
+      { destruct c as [|b|z|s|url|l0|m]; cbn [parse_item] in Hi1, Hi2; try discriminate.
+        - inversion Hi1; inversion Hi2; subst. intros t _. reflexivity.
+        - cbn [item_objs].
+          destruct (assoc String.eqb url ld) as [[| | | | | |dm]|] eqn:Ea; try discriminate.
+          destruct (jget "@context" dm) as [inner|] eqn:Ec; [|discriminate].
+          apply (IHn ld inner Ag T1 T2 B1 B2 Hs); [|exact Hi1|exact Hi2].
+          intros L HL. apply Hcl. cbn [flat_map]. apply in_or_app. left.
+          cbn [item_objs]. rewrite Ea, Ec. exact HL.
+        - cbn [item_objs flat_map]. rewrite app_nil_r.
+          apply (parse_obj_sim Ag T1 T2 m B1 B2 Hs); [|exact Hi1|exact Hi2].
+          intros x Hx Hm. apply (Hcl (ctx_obj_of m)); [|exact Hx|exact Hm].
+          cbn [flat_map item_objs]. left. reflexivity. }
+      assert (Hcl' : forall L, In L (flat_map (item_objs n ld) l) ->
+                     forall x, In x (ctx_refs L) -> jmem x L = false ->
+                     Ag x \/ In x (flat_map term_keys (item_objs n ld c))).
+      { intros L HL x Hx Hm. left. apply (Hcl L); [|exact Hx|exact Hm].
+        cbn [flat_map]. apply in_or_app. right. exact HL. }
+      pose proof (IHl _ B1 B2 Hstep Hcl' H1 H2) as Hr.
+      intros t Ht. apply Hr. cbn [flat_map] in Ht. rewrite flat_map_app in Ht.
+      destruct Ht as [Ht|Ht]; [left; left; exact Ht|].
+      apply in_app_or in Ht. destruct Ht as [Ht|Ht]; [left; right; exact Ht|right; exact Ht].
+Qed.
+
+(* ---- contexts ---- *)
+Definition simC (Ag : string -> Prop) (Gr Gs : ctx) : Prop := simA Ag (c_terms Gr) (c_terms Gs).
+
+Lemma simC_term_def : forall Ag Gr Gs t, simC Ag Gr Gs -> Ag t -> term_def Gr t = term_def Gs t.
+Proof. intros Ag Gr Gs t H Ht. unfold term_def. apply H. exact Ht. Qed.
+
+Lemma parse_sim : forall ld lc (Ag : string -> Prop) Gr Gs b1 b2 Gr' Gs',
+  simC Ag Gr Gs -> closed_lc Ag parse_fuel ld lc ->
+  parse parse_fuel ld Gr lc b1 = Ok Gr' -> parse parse_fuel ld Gs lc b2 = Ok Gs' ->
+  simC (fun t => Ag t \/ In t (lc_keys parse_fuel ld lc)) Gr' Gs'.
+Proof.
+  intros ld lc Ag Gr Gs b1 b2 Gr' Gs' Hs Hcl H1 H2.
+  apply parse_terms_of in H1. apply parse_terms_of in H2.
+  unfold simC. eapply parse_terms_sim; eauto.
+Qed.
+
+Definition opt_cparse (ld : loader) (G : ctx) (o : option json) : res ctx :=
+  match o with Some s => cparse ld G s | None => Ok G end.
+Definition opt_keys (ld : loader) (o : option json) : list string :=
+  match o with Some s => lc_keys parse_fuel ld s | None => [] end.
+Definition closed_opt (Ag : string -> Prop) (ld : loader) (o : option json) : Prop :=
+  match o with Some s => closed_lc Ag parse_fuel ld s | None => True end.
+
+Lemma opt_cparse_sim : forall ld o (Ag : string -> Prop) Gr Gs Gr' Gs',
+  simC Ag Gr Gs -> closed_opt Ag ld o ->
+  opt_cparse ld Gr o = Ok Gr' -> opt_cparse ld Gs o = Ok Gs' ->
+  simC (fun t => Ag t \/ In t (opt_keys ld o)) Gr' Gs'.
+Proof.
+  intros ld o Ag Gr Gs Gr' Gs' Hs Hcl H1 H2. destruct o as [s|]; cbn in *.
+  - unfold cparse in H1, H2. eapply parse_sim; eauto.
+  - inversion H1; inversion H2; subst. intros t [Ht|[]]. apply Hs; exact Ht.
+Qed.
+
+(* ---- keys without a colon expand through their term definition only ---- *)
+Lemma split_colon_aux_none : forall s acc, has_colon s = false -> split_colon_aux acc s = None.
+Proof.
+  induction s as [|c s IH]; intros acc H; cbn in *; [reflexivity|].
+  apply orb_false_iff in H. destruct H as [Hc Hs]. rewrite Hc. apply IH. exact Hs.
+Qed.
+
+Lemma split_colon_none : forall s, has_colon s = false -> split_colon s = None.
+Proof.
+  intros s H. destruct s as [|c s]; [reflexivity|].
+  unfold split_colon. cbn in H. apply orb_false_iff in H. destruct H as [Hc Hs].
+  rewrite Hc. cbn [split_colon_aux]. rewrite Hc. apply split_colon_aux_none. exact Hs.
+Qed.
+
+Lemma expand_doc_agree : forall G1 G2 k,
+  has_colon k = false -> term_def G1 k = term_def G2 k -> expand_doc G1 true k = expand_doc G2 true k.
+Proof.
+  intros G1 G2 k Hc Hd. unfold expand_doc. rewrite Hd. rewrite (split_colon_none k Hc). reflexivity.
+Qed.
+
+Lemma find_ext_in : forall {A} (f g : A -> bool) l, (forall x, In x l -> f x = g x) -> find f l = find g l.
+Proof.
+  intros A f g l. induction l as [|h t IH]; intros H; cbn; [reflexivity|].
+  rewrite (H h) by (left; reflexivity). destruct (g h); [reflexivity|].
+  apply IH. intros x Hx. apply H. right. exact Hx.
+Qed.
+
+Lemma str_ins_in : forall s l x, In x (str_ins s l) -> x = s \/ In x l.
+Proof.
+  intros s l. induction l as [|h t IH]; intros x H; cbn in H.
+  - destruct H as [H|[]]. left. symmetry. exact H.
+  - destruct (str_leb s h).
+    + destruct H as [H|H]; [left; symmetry; exact H|right; exact H].
+    + destruct H as [H|H]; [right; left; exact H|].
+      destruct (IH x H) as [E|E]; [left; exact E|right; right; exact E].
+Qed.
+
+Lemma sort_strings_in : forall l x, In x (sort_strings l) -> In x l.
+Proof.
+  induction l as [|h t IH]; intros x H; cbn in H; [exact H|].
+  apply str_ins_in in H. destruct H as [H|H]; [left; symmetry; exact H|right; apply IH; exact H].
+Qed.
+
+(* same @type key on both sides *)
+Lemma type_key_agree : forall (Ag : string -> Prop) Gr Gs m,
+  simC Ag Gr Gs ->
+  (forall k, In k (jkeys m) -> has_colon k = false /\
+     (Ag k \/ (expand_doc Gr true k <> "@type" /\ expand_doc Gs true k <> "@type"))) ->
+  type_key Gr m = type_key Gs m.
+Proof.
+  intros Ag Gr Gs m Hs Hk. unfold type_key. apply find_ext_in.
+  intros k Hin. apply sort_strings_in in Hin. destruct (Hk k Hin) as [Hc [Ha|[Hr Hsn]]].
+  - rewrite (expand_doc_agree Gr Gs k Hc (simC_term_def Ag Gr Gs k Hs Ha)). reflexivity.
+  - destruct (String.eqb (expand_doc Gr true k) "@type") eqn:E1.
+    + apply String.eqb_eq in E1. contradiction.
+    + destruct (String.eqb (expand_doc Gs true k) "@type") eqn:E2; [|reflexivity].
+      apply String.eqb_eq in E2. contradiction.
+Qed.
+
+(* ---- type-scoped contexts ---- *)
+Definition ts_step (P : ctx -> json -> res ctx) (G3 : ctx) (acc : res ctx) (tt : string) : res ctx :=
+  r <- acc ;;
+  match term_def G3 tt with
+  | Some d => match td_ctx d with Some c => P r c | None => Ok r end
+  | None => Ok r
+  end.
+
+Lemma apply_type_scoped_fold : forall P G3 tys,
+  apply_type_scoped P G3 tys = fold_left (ts_step P G3) tys (Ok G3).
+Proof. reflexivity. Qed.
+
+Lemma fold_ts_not_ok : forall P G3 l e R, (forall a, e <> Ok a) -> fold_left (ts_step P G3) l e <> Ok R.
+Proof.
+  intros P G3 l. induction l as [|c l IH]; intros e R He; cbn [fold_left].
+  - apply He.
+  - apply IH. intros a. unfold ts_step. destruct e; cbn [bind]; try discriminate. exfalso. eapply He; reflexivity.
+Qed.
+
+Definition type_ctx (G3 : ctx) (tt : string) : option json :=
+  match term_def G3 tt with Some d => td_ctx d | None => None end.
+
+Lemma fold_ts_cons_ok : forall P G3 tt l A R,
+  fold_left (ts_step P G3) (tt :: l) (Ok A) = Ok R ->
+  exists B, match type_ctx G3 tt with Some c => P A c | None => Ok A end = Ok B /\
+            fold_left (ts_step P G3) l (Ok B) = Ok R.
+Proof.
+  intros P G3 tt l A R H. cbn [fold_left] in H. unfold ts_step at 2 in H. cbn [bind] in H.
+  unfold type_ctx.
+  destruct (term_def G3 tt) as [d|].
+  - destruct (td_ctx d) as [c|].
+    + destruct (P A c) as [B| | |] eqn:E; [exists B; auto| | |];
+        exfalso; (eapply fold_ts_not_ok; [|exact H]); intros a; discriminate.
+    + exists A. auto.
+  - exists A. auto.
+Qed.
+
+Lemma type_scoped_sim : forall ld (Ag0 : string -> Prop) Gr1 G3 tys,
+  (forall tt, In tt tys -> type_ctx Gr1 tt = type_ctx G3 tt /\ closed_opt Ag0 ld (type_ctx G3 tt)) ->
+  forall (Ag : string -> Prop) A B Gr2 G4,
+  (forall t, Ag0 t -> Ag t) ->
+  simC Ag A B ->
+  fold_left (ts_step (cparse ld) Gr1) tys (Ok A) = Ok Gr2 ->
+  fold_left (ts_step (cparse_typescoped ld) G3) tys (Ok B) = Ok G4 ->
+  simC (fun t => Ag t \/ In t (flat_map (fun tt => opt_keys ld (type_ctx G3 tt)) tys)) Gr2 G4.
+Proof.
+  intros ld Ag0 Gr1 G3 tys. induction tys as [|tt l IH]; intros Htt Ag A B Gr2 G4 Hsub Hs H1 H2.
+  - cbn in H1, H2. inversion H1; inversion H2; subst. intros t [Ht|[]]. apply Hs; exact Ht.
+  - apply fold_ts_cons_ok in H1. destruct H1 as [A' [Ha H1]].
+    apply fold_ts_cons_ok in H2. destruct H2 as [B' [Hb H2]].
+    destruct (Htt tt (or_introl eq_refl)) as [Heq Hcl]. rewrite Heq in Ha.
+    assert (Hs' : simC (fun t => Ag t \/ In t (opt_keys ld (type_ctx G3 tt))) A' B').
+    { destruct (type_ctx G3 tt) as [c|]; cbn [opt_keys].
+      - unfold cparse in Ha. unfold cparse_typescoped in Hb.
+        eapply parse_sim; [exact Hs| |exact Ha|exact Hb].
+        cbn [closed_opt] in Hcl. intros L HL x Hx Hm. apply Hsub. eapply Hcl; eauto.
+      - inversion Ha; inversion Hb; subst. intros t [Ht|[]]. apply Hs; exact Ht. }
+    assert (Htt' : forall tt0, In tt0 l -> type_ctx Gr1 tt0 = type_ctx G3 tt0 /\ closed_opt Ag0 ld (type_ctx G3 tt0)).
+    { intros tt0 Hin. apply Htt. right. exact Hin. }
+    assert (Hsub' : forall t, Ag0 t -> Ag t \/ In t (opt_keys ld (type_ctx G3 tt))) by (intros t Ht; left; apply Hsub; exact Ht).
+    pose proof (IH Htt' _ A' B' Gr2 G4 Hsub' Hs' H1 H2) as Hr.
+    intros t Ht. apply Hr. cbn [flat_map] in Ht.
+    destruct Ht as [Ht|Ht]; [left; left; exact Ht|].
+    apply in_app_or in Ht. destruct Ht as [Ht|Ht]; [left; right; exact Ht|right; exact Ht].
+Qed.
+
+(* ---- entering a node: resolver (no revert, Context.Parse everywhere) vs document semantics ---- *)
+Definition sorted_types (v : json) (tys : list string) : list string :=
+  match v with JArr _ => sort_strings tys | _ => tys end.
+
+Definition node_types (G3 : ctx) (m : members) : list string :=
+  match type_key G3 m with
+  | Some k => match jget k m with
+              | Some v => match type_values v with Ok tys => sorted_types v tys | _ => [] end
+              | None => []
+              end
+  | None => []
+  end.
+
+(* terms on which the contexts still agree after the type-scoped contexts of the parent
+   have been reverted on the document side (and kept by the resolver) *)
+Definition Ag_revert (Ag : string -> Prop) (GsP : ctx) : string -> Prop :=
+  fun t => Ag t /\ term_def (revert GsP) t = term_def GsP t.
+Definition Ag_local (Ag : string -> Prop) (ld : loader) (GsP : ctx) (scoped : option json) (m : members)
+  : string -> Prop :=
+  fun t => (Ag_revert Ag GsP t \/ In t (opt_keys ld scoped)) \/ In t (opt_keys ld (jget "@context" m)).
+Definition Ag_node (Ag : string -> Prop) (ld : loader) (GsP : ctx) (scoped : option json) (m : members) (G3 : ctx)
+  : string -> Prop :=
+  fun t => Ag_local Ag ld GsP scoped m t \/
+           In t (flat_map (fun tt => opt_keys ld (type_ctx G3 tt)) (node_types G3 m)).
+
+Record node_ok (ld : loader) (Ag : string -> Prop) (GsP : ctx) (scoped : option json) (m : members)
+  (Gr1 G3 : ctx) : Prop := {
+  nk_scoped : closed_opt (Ag_revert Ag GsP) ld scoped;
+  nk_local : closed_opt (fun t => Ag_revert Ag GsP t \/ In t (opt_keys ld scoped)) ld (jget "@context" m);
+  nk_keys : forall k, In k (jkeys m) -> has_colon k = false /\
+              (Ag_local Ag ld GsP scoped m k \/
+               (expand_doc Gr1 true k <> "@type" /\ expand_doc G3 true k <> "@type"));
+  nk_types : forall tt, In tt (node_types G3 m) ->
+              Ag_local Ag ld GsP scoped m tt /\ closed_opt (Ag_local Ag ld GsP scoped m) ld (type_ctx G3 tt)
+}.
+
+Lemma revert_sim : forall (Ag : string -> Prop) GrP GsP,
+  simC Ag GrP GsP -> simC (Ag_revert Ag GsP) GrP (revert GsP).
+Proof.
+  intros Ag GrP GsP Hs t [Ht Hr]. rewrite (Hs t Ht). unfold term_def in Hr. symmetry. exact Hr.
+Qed.
+
+Lemma simC_weaken : forall (Ag Ag' : string -> Prop) G1 G2,
+  (forall t, Ag' t -> Ag t) -> simC Ag G1 G2 -> simC Ag' G1 G2.
+Proof. intros. eapply simA_weaken; eauto. Qed.
+
+Lemma type_ctx_agree : forall (Ag : string -> Prop) Gr Gs tt, simC Ag Gr Gs -> Ag tt -> type_ctx Gr tt = type_ctx Gs tt.
+Proof. intros Ag Gr Gs tt H Ht. unfold type_ctx. rewrite (simC_term_def Ag Gr Gs tt H Ht). reflexivity. Qed.
+
+Lemma enter_sim : forall ld (Ag : string -> Prop) GrP GsP scoped m GrIn Gr2 G3 G4,
+  simC Ag GrP GsP ->
+  opt_cparse ld GrP scoped = Ok GrIn ->
+  resolver_enter ld GrIn m = Ok Gr2 ->
+  enter_node ld GsP scoped m = Ok (G3, G4) ->
+  (forall Gr1, opt_cparse ld GrIn (jget "@context" m) = Ok Gr1 -> node_ok ld Ag GsP scoped m Gr1 G3) ->
+  simC (Ag_node Ag ld GsP scoped m G3) Gr2 G4.
+Proof.
+  intros ld Ag GrP GsP scoped m GrIn Gr2 G3 G4 Hs Hin Hr He Hok.
+  unfold resolver_enter in Hr.
+  change (match jget "@context" m with Some c => cparse ld GrIn c | None => Ok GrIn end)
+    with (opt_cparse ld GrIn (jget "@context" m)) in Hr.
+  apply bind_ok in Hr. destruct Hr as [Gr1 [Hr1 Hr]].
+  specialize (Hok Gr1 Hr1). destruct Hok as [Hc1 Hc2 Hkeys Htys].
+  unfold enter_node in He.
+  change (match scoped with Some s => cparse ld (revert GsP) s | None => Ok (revert GsP) end)
+    with (opt_cparse ld (revert GsP) scoped) in He.
+  apply bind_ok in He. destruct He as [G2 [He2 He]].
+  change (match jget "@context" m with Some c => cparse ld G2 c | None => Ok G2 end)
+    with (opt_cparse ld G2 (jget "@context" m)) in He.
+  apply bind_ok in He. destruct He as [G3' [He3 He]].
+  pose proof (revert_sim Ag GrP GsP Hs) as S1.
+  pose proof (opt_cparse_sim ld scoped _ _ _ _ _ S1 Hc1 Hin He2) as S2.
+  pose proof (opt_cparse_sim ld (jget "@context" m) _ _ _ _ _ S2 Hc2 Hr1 He3) as S3.
+  assert (E3 : G3' = G3).
+  { destruct (type_key G3' m).
+    - apply bind_ok in He. destruct He as [tys [_ He]].
+      apply bind_ok in He. destruct He as [G4' [_ He]]. inversion He. reflexivity.
+    - inversion He. reflexivity. }
+  subst G3'.
+  fold (Ag_local Ag ld GsP scoped m) in S3.
+  assert (Ek : type_key Gr1 m = type_key G3 m).
+  { eapply type_key_agree; [exact S3|]. exact Hkeys. }
+  rewrite Ek in Hr. unfold node_types in Htys. unfold Ag_node, node_types.
+  destruct (type_key G3 m) as [k|].
+  - destruct (jget k m) as [v|] eqn:Hv.
+    + unfold resolver_types in Hr.
+      apply bind_ok in Hr. destruct Hr as [tys [Hr0 Hr]].
+      apply bind_ok in Hr0. destruct Hr0 as [tys0 [Htv Hr0]]. inversion Hr0; subst tys.
+      apply bind_ok in He. destruct He as [tys1 [Htv1 He]].
+      rewrite Htv in Htv1. inversion Htv1; subst tys1.
+      apply bind_ok in He. destruct He as [G4' [He4 He]]. inversion He; subst G4'.
+      rewrite Htv in Htys. rewrite Htv.
+      rewrite apply_type_scoped_fold in Hr, He4.
+      assert (Es : match v with JArr _ => sort_strings tys0 | _ => tys0 end = sorted_types v tys0) by reflexivity.
+      rewrite Es in He4. fold (sorted_types v tys0) in Hr.
+      eapply (type_scoped_sim ld (Ag_local Ag ld GsP scoped m) Gr1 G3 (sorted_types v tys0)); try eassumption.
+      * intros tt Htt. destruct (Htys tt Htt) as [Ha Hcl]. split; [|exact Hcl].
+        eapply type_ctx_agree; eauto.
+      * auto.
+    + cbn in Hr, He. inversion Hr; subst Gr2. inversion He; subst G4.
+      intros t [Ht|[]]. apply S3. exact Ht.
+  - inversion Hr; subst Gr2. inversion He; subst G4.
+    intros t [Ht|[]]. apply S3. exact Ht.
+Qed.
+
+(* ---- the resolver looks at member 0 only: values it cannot tell apart ---- *)
+Definition getv (term : string) (m : members) : json :=
+  match jget term m with Some v => v | None => JNull end.
+
+Fixpoint jsim (ld : loader) (pi : list string) (a b : json) : Prop :=
+  match pi with
+  | [] => True
+  | term :: rest =>
+      if is_num term then jsim ld rest a b
+      else exists ma mb, resolver_object a true = Ok ma /\ resolver_object b true = Ok mb /\
+             (forall G, resolver_enter ld G ma = resolver_enter ld G mb) /\
+             jsim ld rest (getv term ma) (getv term mb)
+  end.
+
+Lemma pfd_nil : forall ld G doc acc, pfd ld [] G doc acc = Ok [].
+Proof. reflexivity. Qed.
+
+Lemma pfd_num : forall ld i r G doc acc, is_num i = true ->
+  pfd ld (i :: r) G doc acc =
+  if Z.leb (num_val i) max_int32 then (more <- pfd ld r G doc true ;; Ok (PInt (num_val i) :: more))
+  else Err "parse-int".
+Proof. intros. cbn [pfd]. rewrite H. reflexivity. Qed.
+
+Lemma pfd_term : forall ld t r G doc acc, is_num t = false ->
+  pfd ld (t :: r) G doc acc =
+  (m <- resolver_object doc acc ;;
+   G2 <- resolver_enter ld (match G with Some g => g | None => empty_ctx end) m ;;
+   match term_def G2 t with
+   | None => Err "no-id-for-term"
+   | Some d =>
+       G3 <- opt_cparse ld G2 (td_ctx d) ;;
+       more <- pfd ld r (Some G3) (getv t m) true ;;
+       Ok (PStr (td_id d) :: more)
+   end).
+Proof. intros. cbn [pfd]. rewrite H. reflexivity. Qed.
+
+Lemma pfd_jsim : forall ld pi G a b, jsim ld pi a b -> pfd ld pi G a true = pfd ld pi G b true.
+Proof.
+  intros ld pi. induction pi as [|t r IH]; intros G a b H; [reflexivity|].
+  cbn [jsim] in H. destruct (is_num t) eqn:Hn.
+  - rewrite !pfd_num by exact Hn. rewrite (IH G a b H). reflexivity.
+  - rewrite !pfd_term by exact Hn.
+    destruct H as [ma [mb [Ha [Hb [He Hr]]]]]. rewrite Ha, Hb. cbn [bind].
+    rewrite He. destruct (resolver_enter ld _ mb) as [G2| | |]; try reflexivity. cbn [bind].
+    destruct (term_def G2 t) as [d|]; [|reflexivity].
+    destruct (opt_cparse ld G2 (td_ctx d)) as [G3| | |]; try reflexivity. cbn [bind].
+    rewrite (IH (Some G3) _ _ Hr). reflexivity.
+Qed.
+
+Lemma pfd_arr_head : forall ld pi G m' tl,
+  pfd ld pi G (JArr (JObj m' :: tl)) true = pfd ld pi G (JObj m') true.
+Proof.
+  intros ld pi. induction pi as [|t r IH]; intros G m' tl; [reflexivity|].
+  destruct (is_num t) eqn:Hn.
+  - rewrite !pfd_num by exact Hn. rewrite IH. reflexivity.
+  - rewrite !pfd_term by exact Hn. reflexivity.
+Qed.
+
+Lemma pfd_none : forall ld pi doc acc, pfd ld pi None doc acc = pfd ld pi (Some empty_ctx) doc acc.
+Proof.
+  intros ld pi. induction pi as [|t r IH]; intros doc acc; [reflexivity|].
+  destruct (is_num t) eqn:Hn.
+  - rewrite !pfd_num by exact Hn. rewrite IH. reflexivity.
+  - rewrite !pfd_term by exact Hn. reflexivity.
+Qed.
+
+(* ---- the side conditions along the path: nothing the walk uses below a node was
+   defined or changed by a type-scoped context of an ancestor ---- *)
+Fixpoint ok_along (ld : loader) (pi : list string) (Ag : string -> Prop) (GrP GsP : ctx)
+  (scoped : option json) (m : members) {struct pi} : Prop :=
+  match pi with
+  | [] => True
+  | term :: rest =>
+      forall GrIn Gr2 G3 G4,
+        opt_cparse ld GrP scoped = Ok GrIn ->
+        resolver_enter ld GrIn m = Ok Gr2 ->
+        enter_node ld GsP scoped m = Ok (G3, G4) ->
+        (forall Gr1, opt_cparse ld GrIn (jget "@context" m) = Ok Gr1 -> node_ok ld Ag GsP scoped m Gr1 G3) /\
+        Ag_node Ag ld GsP scoped m G3 term /\
+        forall d, term_def G4 term = Some d ->
+          match jget term m with
+          | Some (JArr []) => True
+          | Some (JArr [x]) =>
+              match x with
+              | JObj m' => ok_along ld rest (Ag_node Ag ld GsP scoped m G3) Gr2 G4 (td_ctx d) m'
+              | _ => True
+              end
+          | Some (JArr l) =>
+              match rest with
+              | i :: rest' =>
+                  match nth_error l (Z.to_nat (num_val i)) with
+                  | Some (JObj m') =>
+                      jsim ld rest' (JArr l) (JObj m') /\
+                      ok_along ld rest' (Ag_node Ag ld GsP scoped m G3) Gr2 G4 (td_ctx d) m'
+                  | _ => True
+                  end
+              | [] => True
+              end
+          | Some (JObj m') => ok_along ld rest (Ag_node Ag ld GsP scoped m G3) Gr2 G4 (td_ctx d) m'
+          | _ => True
+          end
+  end.
+
+Lemma expand_doc_def : forall G t d,
+  is_keyword (expand_doc G true t) = false ->
+  String.eqb (expand_doc G true t) "" = false ->
+  term_def G t = Some d -> expand_doc G true t = td_id d.
+Proof.
+  intros G t d Hk He Hd. unfold expand_doc in *.
+  destruct (is_keyword t) eqn:E1; [congruence|].
+  destruct (keyword_like t) eqn:E2; [cbn in He; discriminate|].
+  rewrite Hd. reflexivity.
+Qed.
+
+Lemma field_step_scalar_path : forall ld G4 d x pe rec l,
+  is_scalar x = true ->
+  field_step ld G4 d x pe [] rec = Ok l -> leaf_path l = pe.
+Proof.
+  intros ld G4 d x pe rec l Hs H.
+  destruct x; cbn in Hs; try discriminate; cbn [field_step] in H;
+    apply bind_ok in H; destruct H as [fs [Hsf H]];
+    destruct (scalar_fact_shape _ _ _ _ _ _ Hsf) as [f0 [Hfs [Hp _]]]; subst fs;
+    inversion H; subst l; unfold leaf_path; cbn; exact Hp.
+Qed.
+
+Lemma field_step_scalar_rest : forall ld G4 d x pe r rec l,
+  is_scalar x = true -> field_step ld G4 d x pe r rec = Ok l -> r = [].
+Proof.
+  intros ld G4 d x pe r rec l Hs H.
+  destruct r; [reflexivity|]. destruct x; cbn in Hs; try discriminate; cbn [field_step] in H; discriminate.
+Qed.
+
+(* the statement for one path (induction hypothesis) *)
+Definition main_stmt (ld : loader) (pi : list string) : Prop :=
+  forall (Ag : string -> Prop) GrP GsP scoped m GrIn G3 G4 acc p l,
+  simC Ag GrP GsP ->
+  opt_cparse ld GrP scoped = Ok GrIn ->
+  pfd ld pi (Some GrIn) (JObj m) acc = Ok p ->
+  enter_node ld GsP scoped m = Ok (G3, G4) ->
+  field_at ld pi G3 G4 m = Ok l ->
+  ok_along ld pi Ag GrP GsP scoped m ->
+  p = leaf_path l.
+
+(* continuing into the node object m' (both walks), given the statement for the rest *)
+Lemma step_into_object : forall ld r (Ag' : string -> Prop) Gr2 G4 d G3r m' more pe l,
+  main_stmt ld r ->
+  simC Ag' Gr2 G4 ->
+  opt_cparse ld Gr2 (td_ctx d) = Ok G3r ->
+  pfd ld r (Some G3r) (JObj m') true = Ok more ->
+  field_step ld G4 (Some d) (JObj m') pe r (field_at ld r) = Ok l ->
+  ok_along ld r Ag' Gr2 G4 (td_ctx d) m' ->
+  leaf_path l = pe ++ more.
+Proof.
+  intros ld r Ag' Gr2 G4 d G3r m' more pe l IH Hs Hc Hp Hf Hok.
+  cbn [field_step] in Hf.
+  apply bind_ok in Hf. destruct Hf as [cc [Hent Hf]].
+  apply bind_ok in Hf. destruct Hf as [l0 [Hrec Hf]].
+  destruct l0 as [[q dt] v]. inversion Hf; subst l. unfold leaf_path. cbn [fst].
+  destruct cc as [G3' G4'].
+  rewrite (IH Ag' Gr2 G4 (td_ctx d) m' G3r G3' G4' true more (q, dt, v) Hs Hc Hp Hent Hrec Hok).
+  reflexivity.
+Qed.
+
+Lemma main_len : forall ld N pi, (List.length pi <= N)%nat -> main_stmt ld pi.
+Proof.
+  intros ld N. induction N as [|N IHN]; intros pi Hlen.
+  - destruct pi; [|cbn in Hlen; lia].
+    intros Ag GrP GsP scoped m GrIn G3 G4 acc p l _ _ _ _ Hf _. cbn in Hf. discriminate.
+  - destruct pi as [|term rest].
+    { intros Ag GrP GsP scoped m GrIn G3 G4 acc p l _ _ _ _ Hf _. cbn in Hf. discriminate. }
+    cbn [List.length] in Hlen.
+    assert (IHrest : main_stmt ld rest) by (apply IHN; lia).
+    intros Ag GrP GsP scoped m GrIn G3 G4 acc p l Hs Hin Hp He Hf Hok.
+    (* document side *)
+    cbn [field_at] in Hf.
+    destruct (is_num term || String.eqb term "@context") eqn:Hk0; [discriminate|].
+    apply orb_false_iff in Hk0. destruct Hk0 as [Hnum Hkctx].
+    destruct (jget term m) as [v|] eqn:Hget; [|discriminate].
+    remember (expand_doc G4 true term) as e eqn:Hedef.
+    destruct (is_keyword e) eqn:Hkw; [discriminate|].
+    destruct (String.eqb e "" || negb (has_colon e)) eqn:Hundef; [discriminate|].
+    apply orb_false_iff in Hundef. destruct Hundef as [Hne _].
+    (* resolver side *)
+    rewrite (pfd_term ld term rest _ _ _ Hnum) in Hp.
+    assert (Hobj : resolver_object (JObj m) acc = Ok m) by reflexivity.
+    rewrite Hobj in Hp. cbn [bind] in Hp.
+    apply bind_ok in Hp. destruct Hp as [Gr2 [Hr2 Hp]].
+    destruct (term_def Gr2 term) as [d|] eqn:Hd; [|discriminate].
+    apply bind_ok in Hp. destruct Hp as [G3r [Hc3 Hp]].
+    apply bind_ok in Hp. destruct Hp as [more [Hmore Hp]]. inversion Hp; subst p. clear Hp.
+    unfold getv in Hmore. rewrite Hget in Hmore.
+    (* side conditions at this node *)
+    cbn [ok_along] in Hok.
+    destruct (Hok GrIn Gr2 G3 G4 Hin Hr2 He) as [Hnode [Hterm Hcont]].
+    pose proof (enter_sim ld Ag GrP GsP scoped m GrIn Gr2 G3 G4 Hs Hin Hr2 He Hnode) as Hs'.
+    assert (Hd4 : term_def G4 term = Some d).
+    { rewrite <- (simC_term_def _ Gr2 G4 term Hs' Hterm). exact Hd. }
+    assert (Hee : e = td_id d).
+    { subst e. apply expand_doc_def; assumption. }
+    specialize (Hcont d Hd4). rewrite Hget in Hcont.
+    rewrite Hd4 in Hf.
+    (* by cases on the value *)
+    assert (Hleaf : forall x pe, is_scalar x = true ->
+              field_step ld G4 (Some d) x pe rest (field_at ld rest) = Ok l ->
+              rest = [] /\ leaf_path l = pe).
+    { intros x pe Hsc Hst. pose proof (field_step_scalar_rest _ _ _ _ _ _ _ _ Hsc Hst) as Er.
+      split; [exact Er|]. subst rest. eapply field_step_scalar_path; eauto. }
+    destruct v as [|b|z|s|s|l0|m'].
+    + (* JNull *) destruct rest as [|i r']; [cbn in Hf; discriminate|].
+      destruct (is_num i); [discriminate|]. cbn in Hf. discriminate.
+    + assert (Hx : field_step ld G4 (Some d) (JBool b) [PStr e] rest (field_at ld rest) = Ok l).
+      { destruct rest as [|i r']; [exact Hf|]. destruct (is_num i); [discriminate|exact Hf]. }
+      destruct (Hleaf (JBool b) [PStr e] eq_refl Hx) as [Er Hl]. subst rest. rewrite pfd_nil in Hmore.
+      inversion Hmore; subst more. rewrite Hl, Hee. reflexivity.
+    + assert (Hx : field_step ld G4 (Some d) (JInt z) [PStr e] rest (field_at ld rest) = Ok l).
+      { destruct rest as [|i r']; [exact Hf|]. destruct (is_num i); [discriminate|exact Hf]. }
+      destruct (Hleaf (JInt z) [PStr e] eq_refl Hx) as [Er Hl]. subst rest. rewrite pfd_nil in Hmore.
+      inversion Hmore; subst more. rewrite Hl, Hee. reflexivity.
+    + assert (Hx : field_step ld G4 (Some d) (JDbl s) [PStr e] rest (field_at ld rest) = Ok l).
+      { destruct rest as [|i r']; [exact Hf|]. destruct (is_num i); [discriminate|exact Hf]. }
+      destruct (Hleaf (JDbl s) [PStr e] eq_refl Hx) as [Er Hl]. subst rest. rewrite pfd_nil in Hmore.
+      inversion Hmore; subst more. rewrite Hl, Hee. reflexivity.
+    + assert (Hx : field_step ld G4 (Some d) (JStr s) [PStr e] rest (field_at ld rest) = Ok l).
+      { destruct rest as [|i r']; [exact Hf|]. destruct (is_num i); [discriminate|exact Hf]. }
+      destruct (Hleaf (JStr s) [PStr e] eq_refl Hx) as [Er Hl]. subst rest. rewrite pfd_nil in Hmore.
+      inversion Hmore; subst more. rewrite Hl, Hee. reflexivity.
+    + (* JArr *)
+      destruct l0 as [|x1 [|x2 l']]; [discriminate| |].
+      * (* single member *)
+        assert (Hx : field_step ld G4 (Some d) x1 [PStr e] rest (field_at ld rest) = Ok l).
+        { destruct rest as [|i r']; [exact Hf|]. destruct (is_num i); [discriminate|exact Hf]. }
+        destruct x1 as [|b|z|s|s|l1|m'].
+        -- cbn in Hx. discriminate.
+        -- destruct (Hleaf (JBool b) [PStr e] eq_refl Hx) as [Er Hl]. subst rest. rewrite pfd_nil in Hmore.
+           inversion Hmore; subst more. rewrite Hl, Hee. reflexivity.
+        -- destruct (Hleaf (JInt z) [PStr e] eq_refl Hx) as [Er Hl]. subst rest. rewrite pfd_nil in Hmore.
+           inversion Hmore; subst more. rewrite Hl, Hee. reflexivity.
+        -- destruct (Hleaf (JDbl s) [PStr e] eq_refl Hx) as [Er Hl]. subst rest. rewrite pfd_nil in Hmore.
+           inversion Hmore; subst more. rewrite Hl, Hee. reflexivity.
+        -- destruct (Hleaf (JStr s) [PStr e] eq_refl Hx) as [Er Hl]. subst rest. rewrite pfd_nil in Hmore.
+           inversion Hmore; subst more. rewrite Hl, Hee. reflexivity.
+        -- cbn in Hx. discriminate.
+        -- rewrite pfd_arr_head in Hmore.
+           rewrite (step_into_object ld rest _ Gr2 G4 d G3r m' more [PStr e] l IHrest Hs' Hc3 Hmore Hx Hcont).
+           rewrite Hee. reflexivity.
+      * (* at least two members: an index is required *)
+        destruct rest as [|i rest']; [discriminate|].
+        destruct (is_num i) eqn:Hinum; [|discriminate].
+        destruct (nth_error (x1 :: x2 :: l') (Z.to_nat (num_val i))) as [x|] eqn:Hnth; [|discriminate].
+        rewrite (pfd_num ld i rest' _ _ _ Hinum) in Hmore.
+        destruct (Z.leb (num_val i) max_int32); [|discriminate].
+        apply bind_ok in Hmore. destruct Hmore as [more' [Hmore' Hmore]]. inversion Hmore; subst more. clear Hmore.
+        assert (IHrest' : main_stmt ld rest') by (apply IHN; cbn in Hlen; lia).
+        assert (Hleaf' : forall pe, is_scalar x = true ->
+              field_step ld G4 (Some d) x pe rest' (field_at ld rest') = Ok l ->
+              rest' = [] /\ leaf_path l = pe).
+        { intros pe Hsc Hst. pose proof (field_step_scalar_rest _ _ _ _ _ _ _ _ Hsc Hst) as Er.
+          split; [exact Er|]. subst rest'. eapply field_step_scalar_path; eauto. }
+        destruct x as [|b|z|s|s|l1|m'].
+        -- cbn in Hf. discriminate.
+        -- destruct (Hleaf' _ eq_refl Hf) as [Er Hl]. subst rest'. rewrite pfd_nil in Hmore'.
+           inversion Hmore'; subst more'. rewrite Hl, Hee. reflexivity.
+        -- destruct (Hleaf' _ eq_refl Hf) as [Er Hl]. subst rest'. rewrite pfd_nil in Hmore'.
+           inversion Hmore'; subst more'. rewrite Hl, Hee. reflexivity.
+        -- destruct (Hleaf' _ eq_refl Hf) as [Er Hl]. subst rest'. rewrite pfd_nil in Hmore'.
+           inversion Hmore'; subst more'. rewrite Hl, Hee. reflexivity.
+        -- destruct (Hleaf' _ eq_refl Hf) as [Er Hl]. subst rest'. rewrite pfd_nil in Hmore'.
+           inversion Hmore'; subst more'. rewrite Hl, Hee. reflexivity.
+        -- cbn in Hf. discriminate.
+        -- destruct Hcont as [Hjs Hcont].
+           rewrite (pfd_jsim ld rest' _ _ _ Hjs) in Hmore'.
+           rewrite (step_into_object ld rest' _ Gr2 G4 d G3r m' more' [PStr e; PInt (num_val i)] l
+                      IHrest' Hs' Hc3 Hmore' Hf Hcont).
+           rewrite Hee. reflexivity.
+    + (* JObj *)
+      assert (Hx : field_step ld G4 (Some d) (JObj m') [PStr e] rest (field_at ld rest) = Ok l).
+      { destruct rest as [|i r']; [exact Hf|]. destruct (is_num i); [discriminate|exact Hf]. }
+      rewrite (step_into_object ld rest _ Gr2 G4 d G3r m' more [PStr e] l IHrest Hs' Hc3 Hmore Hx Hcont).
+      rewrite Hee. reflexivity.
+Qed.
+
+(* ------------------------------------------------------------------ *)
+(* C11_doc_vs_store                                                    *)
+(* ------------------------------------------------------------------ *)
+
+Lemma simC_refl : forall (Ag : string -> Prop) G, simC Ag G G.
+Proof. intros Ag G t _. reflexivity. Qed.
+
+(* The path the (faithful) document-side resolver returns is the path under which
+   the document states the field, and that fact is one of the document's facts —
+   provided nothing the walk uses below a node was defined or changed by a
+   type-scoped context of an ancestor (ok_along), and the members of indexed arrays
+   are indistinguishable for the resolver (jsim, inside ok_along).  That the numeric
+   segments are in range is part of `doc_field ... = Ok _`. *)
+Theorem doc_vs_store : forall ld m pi p p' dt v fs,
+  path_from_document ld (JObj m) pi = Ok p ->
+  doc_field ld (JObj m) pi = Ok (p', dt, v) ->
+  ok_along ld pi (fun _ => True) empty_ctx empty_ctx None m ->
+  facts ld (JObj m) = Ok fs ->
+  p = p' /\ exists f, In f fs /\ f_path f = p /\ f_dt f = dt /\ f_val f = v.
+Proof.
+  intros ld m pi p p' dt v fs Hp Hd Hok Hf.
+  assert (E : p = p').
+  { unfold path_from_document in Hp. rewrite pfd_none in Hp.
+    unfold doc_field in Hd. apply bind_ok in Hd. destruct Hd as [[G3 G4] [Hent Hd]].
+    cbn [fst snd] in Hd.
+    exact (main_len ld (List.length pi) pi (le_n _) (fun _ => True) empty_ctx empty_ctx None m empty_ctx
+             G3 G4 false p (p', dt, v) (simC_refl _ _) eq_refl Hp Hent Hd Hok). }
+  split; [exact E|]. subst p'.
+  eapply field_is_fact; eauto.
+Qed.
+
+(* non-vacuity: a document with a type-scoped context (defining the property `inner`)
+   and a nested node using a term of the enclosing context satisfies the side conditions *)
+Definition ok_doc_members : members :=
+  [("@context", JObj [("T", JObj [("@id", JStr "http://e/T");
+                                  ("@context", JObj [("inner", JStr "http://e/inner")])]);
+                       ("leaf", JObj [("@id", JStr "http://e/leaf");
+                                      ("@type", JStr "http://www.w3.org/2001/XMLSchema#integer")])]);
+   ("@type", JStr "T");
+   ("inner", JObj [("leaf", JInt 5)])].
+
+Lemma root_agreed : forall ld scoped m t, Ag_local (fun _ => True) ld empty_ctx scoped m t.
+Proof. intros. left. left. split; [exact I|reflexivity]. Qed.
+
+Example ok_doc_side_conditions :
+  ok_along [] ["inner"; "leaf"] (fun _ => True) empty_ctx empty_ctx None ok_doc_members.
+Proof.
+  cbn [ok_along]. intros GrIn Gr2 G3 G4 H1 H2 H3.
+  cbn in H1. inversion H1; subst GrIn. clear H1.
+  vm_compute in H2. inversion H2; subst Gr2. clear H2.
+  vm_compute in H3. inversion H3; subst G3 G4. clear H3.
+  split; [|split].
+  - intros Gr1 HG1. vm_compute in HG1. inversion HG1; subst Gr1. clear HG1.
+    constructor.
+    + exact I.
+    + intros L HL x Hx Hm. left. split; [exact I|reflexivity].
+    + intros k Hk. cbn in Hk.
+      destruct Hk as [<-|[<-|[<-|[]]]]; (split; [reflexivity|left; apply root_agreed]).
+    + intros tt Htt. split; [apply root_agreed|].
+      vm_compute in Htt. destruct Htt as [<-|[]].
+      intros L HL x Hx Hm. apply root_agreed.
+  - left. apply root_agreed.
+  - intros d Hd. vm_compute in Hd. inversion Hd; subst d. clear Hd.
+    cbn [jget ok_doc_members String.eqb Ascii.eqb Bool.eqb]. cbn.
+    intros GrIn Gr2 G3 G4 H1 H2 H3.
+    cbn in H1. inversion H1; subst GrIn. clear H1.
+    vm_compute in H2. inversion H2; subst Gr2. clear H2.
+    vm_compute in H3. inversion H3; subst G3 G4. clear H3.
+    assert (Hleaf : forall t, t = "leaf" ->
+      Ag_revert (Ag_node (fun _ => True) [] empty_ctx None ok_doc_members
+        {| c_terms := [("T", {| td_id := "http://e/T"; td_type := None;
+                                td_ctx := Some (JObj [("inner", JStr "http://e/inner")]); td_prefix := false |});
+                       ("leaf", {| td_id := "http://e/leaf"; td_type := Some "http://www.w3.org/2001/XMLSchema#integer";
+                                   td_ctx := None; td_prefix := false |})];
+           c_prev := None |})
+        {| c_terms := [("T", {| td_id := "http://e/T"; td_type := None;
+                                td_ctx := Some (JObj [("inner", JStr "http://e/inner")]); td_prefix := false |});
+                       ("leaf", {| td_id := "http://e/leaf"; td_type := Some "http://www.w3.org/2001/XMLSchema#integer";
+                                   td_ctx := None; td_prefix := false |});
+                       ("inner", {| td_id := "http://e/inner"; td_type := None; td_ctx := None; td_prefix := false |})];
+           c_prev := Some [("T", {| td_id := "http://e/T"; td_type := None;
+                                    td_ctx := Some (JObj [("inner", JStr "http://e/inner")]); td_prefix := false |});
+                           ("leaf", {| td_id := "http://e/leaf"; td_type := Some "http://www.w3.org/2001/XMLSchema#integer";
+                                       td_ctx := None; td_prefix := false |})] |} t).
+    { intros t ->. split; [left; apply root_agreed|reflexivity]. }
+    split; [|split].
+    + intros Gr1 HG1. cbn in HG1. inversion HG1; subst Gr1. clear HG1.
+      constructor.
+      * exact I.
+      * exact I.
+      * intros k Hk. cbn in Hk. destruct Hk as [<-|[]].
+        split; [reflexivity|]. left. left. left. apply Hleaf. reflexivity.
+      * intros tt Htt. vm_compute in Htt. destruct Htt.
+    + left. left. left. apply Hleaf. reflexivity.
+    + intros d _. exact I.
+Qed.
+
+Example ok_doc_paths_agree :
+  path_from_document [] (JObj ok_doc_members) ["inner"; "leaf"] = Ok [PStr "http://e/inner"; PStr "http://e/leaf"] /\
+  doc_field [] (JObj ok_doc_members) ["inner"; "leaf"]
+    = Ok ([PStr "http://e/inner"; PStr "http://e/leaf"], "http://www.w3.org/2001/XMLSchema#integer", JInt 5).
+Proof. split; vm_compute; reflexivity. Qed.
+
+
+(* ------------------------------------------------------------------ *)
+(* C11_datatype                                                        *)
+(* ------------------------------------------------------------------ *)
+
+Definition is_datatype (t : string) : bool :=
+  negb (String.eqb t "@id" || String.eqb t "@vocab" || String.eqb t "@none" || String.eqb t "@json").
+
+(* the datatype declared by the term definition in force is the datatype recorded for the fact *)
+Lemma declared_datatype_recorded : forall G d dp p v t fs,
+  td_type d = Some t -> is_datatype t = true ->
+  scalar_fact G (Some d) dp p v = Ok fs ->
+  exists f, fs = [f] /\ f_dt f = t /\ f_val f = v /\ f_path f = p.
+Proof.
+  intros G d dp p v t fs Ht Hdt H. unfold scalar_fact in H. rewrite Ht in H.
+  unfold is_datatype in Hdt. apply negb_true_iff in Hdt.
+  apply orb_false_iff in Hdt. destruct Hdt as [Hdt H4].
+  apply orb_false_iff in Hdt. destruct Hdt as [Hdt H3].
+  apply orb_false_iff in Hdt. destruct Hdt as [H1 H2].
+  rewrite H1, H2, H3, H4 in H. cbn in H. inversion H. eexists. split; [reflexivity|]. cbn. auto.
+Qed.
+
+(* TypeFromContext on (type term, field): the type mapping of the field's definition in the
+   context of a node of that type *)
+Lemma type_from_context_field : forall ld C ty field s,
+  type_from_context ld (JObj [("@context", C)]) [ty; field] = Ok s ->
+  exists G dty G2 d G3,
+    cparse ld empty_ctx C = Ok G /\ term_def G ty = Some dty /\
+    opt_cparse ld G (td_ctx dty) = Ok G2 /\ term_def G2 field = Some d /\
+    opt_cparse ld G2 (td_ctx d) = Ok G3 /\ s = type_mapping G3 field.
+Proof.
+  intros ld C ty field s H. apply type_from_context_ok in H.
+  destruct H as [G [G' [HG [Ht Hs]]]]. cbn [tfc] in Ht.
+  destruct (term_def G ty) as [dty|] eqn:Hdty; [|discriminate].
+  apply bind_ok in Ht. destruct Ht as [G2 [HG2 Ht]].
+  destruct (term_def G2 field) as [d|] eqn:Hd; [|discriminate].
+  apply bind_ok in Ht. destruct Ht as [G3 [HG3 Ht]]. inversion Ht; subst G'.
+  exists G, dty, G2, d, G3. cbn [last] in Hs. repeat split; auto.
+Qed.
+
+(* the contexts of a root node of the single type ty *)
+Lemma root_contexts : forall ld C m k ty G dty G2 G3 G4,
+  jget "@context" m = Some C ->
+  cparse ld empty_ctx C = Ok G ->
+  enter_node ld empty_ctx None m = Ok (G3, G4) ->
+  type_key G m = Some k -> jget k m = Some (JStr ty) ->
+  term_def G ty = Some dty ->
+  opt_cparse ld G (td_ctx dty) = Ok G2 ->
+  G3 = G /\ c_terms G4 = c_terms G2.
+Proof.
+  intros ld C m k ty G dty G2 G3 G4 HC HG Hent Hk Hty Hdty HG2.
+  unfold enter_node in Hent. change (revert empty_ctx) with empty_ctx in Hent.
+  cbn [bind] in Hent. rewrite HC, HG in Hent. cbn [bind] in Hent.
+  rewrite Hk, Hty in Hent. cbn [type_values bind] in Hent.
+  rewrite apply_type_scoped_fold in Hent. cbn [fold_left] in Hent. unfold ts_step in Hent. cbn [bind] in Hent.
+  rewrite Hdty in Hent.
+  destruct (td_ctx dty) as [c|] eqn:Hc.
+  - cbn [opt_cparse] in HG2.
+    apply bind_ok in Hent. destruct Hent as [G4' [Hp Hent]]. inversion Hent; subst G4' G3.
+    split; [reflexivity|].
+    unfold cparse_typescoped in Hp. unfold cparse in HG2.
+    apply parse_terms_of in Hp. apply parse_terms_of in HG2. congruence.
+  - cbn [opt_cparse] in HG2. inversion HG2; subst G2. cbn in Hent. inversion Hent; subst. auto.
+Qed.
+
+(* a scalar field of the root node, whose type is the single term ty: the datatype
+   TypeFromContext reports for (ty, field) is the datatype of the fact the document states *)
+Theorem datatype_root_field : forall ld C m k ty field v G dt fs p fdt fv,
+  jget "@context" m = Some C ->
+  cparse ld empty_ctx C = Ok G ->
+  type_key G m = Some k -> jget k m = Some (JStr ty) ->
+  type_from_context ld (JObj [("@context", C)]) [ty; field] = Ok dt ->
+  is_datatype dt = true -> dt <> "" ->
+  (forall G' d, term_def G' field = Some d -> td_ctx d = None) ->
+  jget field m = Some v -> is_scalar v = true ->
+  doc_field ld (JObj m) [field] = Ok (p, fdt, fv) ->
+  facts ld (JObj m) = Ok fs ->
+  fdt = dt /\ exists x, In x fs /\ f_path x = p /\ f_dt x = dt /\ f_val x = fv.
+Proof.
+  intros ld C m k ty field v G dt fs p fdt fv HC HG Hk Hty Htf Hdt Hne Hnoctx Hv Hsc Hd Hf.
+  assert (E : fdt = dt).
+  { apply type_from_context_field in Htf.
+    destruct Htf as [G0 [dty [G2 [d [G3' [HG0 [Hdty [HG2 [Hdf [HG3 Hs]]]]]]]]]].
+    rewrite HG in HG0. inversion HG0; subst G0. clear HG0.
+    rewrite (Hnoctx G2 d Hdf) in HG3. cbn in HG3. inversion HG3; subst G3'. clear HG3.
+    unfold type_mapping in Hs. rewrite Hdf in Hs.
+    assert (Htd : td_type d = Some dt).
+    { destruct (td_type d) as [t|]; [congruence|]. subst dt. congruence. }
+    unfold doc_field in Hd. apply bind_ok in Hd. destruct Hd as [[G3 G4] [Hent Hd]].
+    destruct (root_contexts ld C m k ty G dty G2 G3 G4 HC HG Hent Hk Hty Hdty HG2) as [E3 Ht4]. subst G3.
+    assert (Hd4 : term_def G4 field = Some d) by (rewrite (term_def_ext G4 G2 field Ht4); exact Hdf).
+    cbn [fst snd field_at] in Hd.
+    destruct (is_num field || String.eqb field "@context"); [discriminate|].
+    rewrite Hv in Hd.
+    destruct (is_keyword (expand_doc G4 true field)); [discriminate|].
+    destruct (String.eqb (expand_doc G4 true field) "" || negb (has_colon (expand_doc G4 true field))); [discriminate|].
+    rewrite Hd4 in Hd.
+    destruct v as [|b|z|s|s|l|m']; cbn in Hsc; try discriminate; cbn [field_step] in Hd;
+      apply bind_ok in Hd; destruct Hd as [fs0 [Hsf Hd]];
+      destruct (declared_datatype_recorded _ _ _ _ _ _ _ Htd Hdt Hsf) as [f0 [Efs [Edt _]]]; subst fs0;
+      inversion Hd; subst; exact Edt. }
+  split; [exact E|]. subst fdt.
+  eapply field_is_fact; eauto.
 Qed.
